@@ -62,6 +62,8 @@ def gwop(o):
         return "(WCopy %d %d)" % (o[1], o[2])
     if k == "state":
         return "(WState %d %s %s)" % (o[1], gzlist(RUN_TYPE[o[1]]), S.gop(o[2]))
+    if k == "reopen":
+        return "WReopen"
     raise core.CheckError("connstore: unknown op %r" % (o,))
 
 
@@ -97,7 +99,15 @@ def case_expr(ops, obs_single, obs_percall, closes="false"):
 # ---- driving the real store --------------------------------------------------------------------------
 class Driver:
     def __init__(self, path, single):
+        self.path, self.single = path, single
         self.ws = SqliteWorkflowStore(path, single_connection=single)
+        self.stores = {}
+
+    def reopen(self):
+        """What a process restart does: the store (and its shared connection) goes away, a new store
+        is opened on the same file; only committed data is still there."""
+        self.close()
+        self.ws = SqliteWorkflowStore(self.path, single_connection=self.single)
         self.stores = {}
 
     def state_store(self, run):
@@ -110,6 +120,9 @@ class Driver:
     async def step(self, o):
         k = o[0]
         try:
+            if k == "reopen":
+                self.reopen()
+                return ("ok",)
             if k == "update":
                 await self.ws.update(PersistentHandler(handler_id="h%d" % o[1], workflow_name="w",
                                                        status=STATUS[o[2]]))
@@ -203,6 +216,13 @@ def run_both(dbdir, n, ops):
                 pass
 
 
+# every case ends with a restart and a read-back of everything: what the operations reported must
+# also be what a new connection finds in the file
+READ_BACK = ([("reopen",)] + [("query_status", st) for st in range(4)]
+             + [x for r in (1, 2) for x in (("query_events", r, -1), ("get_ticks", r))]
+             + [("state", r, ("get_state",)) for r in (1, 2, 3)])
+
+
 # ---- generator ---------------------------------------------------------------------------------------
 def gen_state_op(rng, run, orc):
     k = rng.choice(["set", "set", "get", "get", "edit", "get_state", "set_state", "clear"])
@@ -262,6 +282,8 @@ def gen_case(rng, i):
             o = ("query_status", rng.randrange(4))
         elif x < 0.79:
             o = ("delete", rng.sample([1, 2, 3, 4], rng.randint(0, 2)))
+        elif x < 0.81:
+            o = ("reopen",)
         elif x < 0.86:
             o = ("append_event", rng.choice([1, 2]), rng.randint(0, 9))
         elif x < 0.91:
@@ -271,4 +293,4 @@ def gen_case(rng, i):
         else:
             o = ("get_ticks", rng.choice([1, 2]))
         ops.append(o)
-    return ops
+    return ops + READ_BACK
